@@ -289,7 +289,7 @@ SERVE_TRUST += [
     "ciborium by contract: cbor_parse is a total function of the frame bytes (cbor_from / cbor_into shims); bytes_to_hash, short_hash, meta::fingerprint_path, list_fingerprints by contract",
     "R6: with_commit_lock is inlined (β-reduction of the closure argument, side condition: no `?`/return inside the closure) from its current body on every run; R4: none (serve is synchronous); R11: Box<dyn Error> => opaque VErr",
     "DOMAIN ASSUMPTION: a decoded request never names a reserved staging path (in_domain, the properties' own exclusion of 'reserved staging names')",
-    "byte-string constant MAGIC == \"COPIA1\\n\" and MAX_FRAME == 2^20 are read from wire.rs by //@item (the const text is the repository's)",
+    "MAX_FRAME == 2^20 is read from wire.rs by //@item (the const text is the repository's); the byte-string constant MAGIC (b\"COPIA1\", 6 bytes) is opaque to Verus: `&m == MAGIC` goes through the R5 shim magic_eq",
 ]
 def _serve(pid, clauses, only_re, not_decided, slice_, ignore=None):
     u = dict(template="units/serve.rs", slice=slice_)
@@ -328,7 +328,7 @@ PROPS["C11"] = _serve("C11", {
 }, r"\(C11", ["std::path parsing itself (assumed component grammar, validated by the twin)", "symlinks (assumed absent by the property)"],
     ["safe_join", "tmp_of", "handle_put", "handle_delete", "handle_get", "serve"], {"handle_put": _NOT_C11, "handle_delete": _NOT_C11, "handle_get": _NOT_C11})
 PROPS["C12"] = _serve("C12", {
-    "read_magic": "Ok <=> the first 7 bytes are COPIA1\\n; consumes exactly those",
+    "read_magic": "Ok(true) <=> the first 6 bytes are the magic COPIA1; consumes exactly those six",
     "read_frame": "never allocates before checking len <= MAX_FRAME (2^20): the buffer passed to read_exact has length len <= 2^20; clean EOF at a frame boundary => Ok(None); consumes exactly 4 + len bytes on success",
     "write_frame": "emits BE32(len) ++ cbor(msg), rejects len > MAX_FRAME",
     "serve": "no panic/overflow/out-of-bounds (every callee precondition holds for arbitrary input); with a bad prologue or before the first well-formed frame, files are unchanged and the effect log holds at most the two start-up Mkdirs; terminates on EOF (loop exits when read_frame returns None/Err)",
